@@ -1,11 +1,12 @@
 SPECIFICATION Spec
 CONSTANTS Depth = 3
- MaxOps = 0
+ MaxOps = 1
  Pats <- None
  Targs <- None
  Insts <- None
  CmpSet <- None
- Kinds <- KindsAll
+ Cmp3Set <- None
+ Kinds <- KindsLook
  Record = TRUE
  EmitAll = TRUE
 INVARIANT StepsLawful
